@@ -83,8 +83,8 @@ def run(chk, tier):
     model_check(chk, tier)
     env = new_env()
     rnd = random.Random(core.SEED)
-    n_cubes = 30 if tier == "quick" else 400
-    n_sched = 4 if tier == "quick" else 30
+    n_cubes = 80 if tier == "quick" else 600
+    n_sched = 6 if tier == "quick" else 30
     scripts = schedules_from_model(chk, 40 if tier == "quick" else 400, core.SEED + 1)
     traces, meta = [], {}
     tid = 0
